@@ -239,3 +239,38 @@ Proof.
   rewrite (session_roundtrip _ Hv'). unfold with_ts; cbn [s_proto s_ts s_sid s_seq s_status s_plen s_slen].
   rewrite Z2N.id by lia. reflexivity.
 Qed.
+
+(* ---------------------------------------------------------------- the C08 window, on the source of both codecs *)
+
+From M Require Import proofs.KeyTimeProofs.
+Open Scope Z_scope.
+
+(* A session metadata stamped by the source's Marshal at the sender's instant [t] (unix ns) and read by the source's
+   Unmarshal at the receiver's instant [t + d]: accepted with the sender's fields when the clocks differ by at most 60 s,
+   refused (error, receiver untouched) when they differ by 2 minutes or more - at every instant of the uint32-minute era,
+   minute ticks included.  (timestamp_ok of KeyTime.v is the test; here it is the Go text of Marshal, Unmarshal, WithinRange
+   and Mid that is shown to apply it.) *)
+Theorem xl_session_timestamp_window (m : session_meta) (ts0 t d p0 t0 i0 q0 c0 l0 x0 : Z) :
+  session_valid m -> era t -> era (t + d) ->
+  let '(b, ts) := xl_protocol_sessionStruct_Marshal (Z.of_N (s_proto m)) ts0 (Z.of_N (s_sid m)) (Z.of_N (s_seq m))
+                    (Z.of_N (s_status m)) (Z.of_N (s_plen m)) (Z.of_N (s_slen m)) (t / NS) in
+  (Z.abs d <= 60 * NS ->
+     xl_protocol_sessionStruct_Unmarshal b p0 t0 i0 q0 c0 l0 x0 ((t + d) / NS) =
+     Some (false, Z.of_N (s_proto m), minute t, Z.of_N (s_sid m), Z.of_N (s_seq m), Z.of_N (s_status m),
+           Z.of_N (s_plen m), Z.of_N (s_slen m))) /\
+  (120 * NS <= Z.abs d ->
+     xl_protocol_sessionStruct_Unmarshal b p0 t0 i0 q0 c0 l0 x0 ((t + d) / NS) = Some (true, p0, t0, i0, q0, c0, l0, x0)).
+Proof.
+  intros Hv Ht Htd.
+  assert (Hr : forall u, era u -> - 2 ^ 63 <= u / NS < 2 ^ 63).
+  { intros u [H1 H2]. unfold NS, U32 in *. split.
+    - apply Z.le_trans with 0; [lia | apply Z.div_pos; lia].
+    - apply Z.div_lt_upper_bound; lia. }
+  pose proof (xl_session_marshal_unmarshal m ts0 (t / NS) ((t + d) / NS) p0 t0 i0 q0 c0 l0 x0 Hv (Hr _ Ht) (Hr _ Htd)) as H.
+  destruct (xl_protocol_sessionStruct_Marshal _ _ _ _ _ _ _ _) as [b ts].
+  destruct H as [_ H]. rewrite !stamp_minute in H.
+  change (within_range32 (minute (t + d)) (minute t) 1) with (timestamp_ok (t + d) t) in H.
+  split; intro Hd; rewrite H.
+  - destruct (c08_handshake t d Ht Htd) as [(_ & Hok & _) _]; [unfold S60; lia|]. rewrite Hok. reflexivity.
+  - destruct (c08_stale t d Ht Htd) as [Hst _]. rewrite Hst by (unfold S60; lia). reflexivity.
+Qed.
